@@ -268,6 +268,7 @@ class Prog(object):
         self.regs = {}
         self.pages = []           # (addr, perm, bytes, name)
         self.loop = None          # (head, branch_pc)
+        self.delay_slots = []     # addresses of instructions sitting in a branch delay slot
 
     def describe(self):
         return dict(machine=self.spec.mname, code=self.code.hex(),
@@ -309,10 +310,20 @@ def make_prog(spec, rng, pool, n_instr, with_loop=False, fault_bias=0.3):
         if loop_end is not None and i + 1 == loop_end:
             tail = spec.loop_tail(off, head)
             if tail is not None:
+                slot = None
+                if spec.family == "mips32" and rng.random() < 0.6:
+                    # a real instruction in the branch delay slot instead of the NOP
+                    slot = rng.choice(pool)
+                    tail = tail[:-4]
                 p.instrs.append((off, len(tail), "<loop tail -> %x>" % head, "LOOPTAIL"))
                 p.loop = (head, off)
                 code += tail
                 off += len(tail)
+                if slot is not None:
+                    p.instrs.append((off, len(slot[0]), slot[1] + "   ; delay slot", slot[2]))
+                    p.delay_slots.append(off)
+                    code += slot[0]
+                    off += len(slot[0])
     p.code = code
     p.end = off
     vals = interesting_values(rng, bits, L)
